@@ -143,14 +143,18 @@ func (x *Exec) call(fr *Frame, i *ssa.Call) {
 		x.staticCall(fr, i, x.funcByID[id-1], args, nil)
 		return
 	}
-	// contract attached to the named function type
-	if n, ok := common.Value.Type().(*types.Named); ok {
-		key := "functype:" + n.Obj().Pkg().Name() + "." + n.Obj().Name()
-		if c, ok := x.cs.ByTarget[n.Obj().Pkg().Name()+"."+"functype:"+n.Obj().Name()]; ok {
-			res := x.applyContract(fr, c, key, common.Signature(), append([]Val{fv}, args...), true)
-			fr.vals[i] = res
-			return
+	// closed world: the value must be one of the module's functions of this signature that
+	// share one contract (e.g. the constructor family registered in operators13)
+	if c, ids, label := x.dynamicTargets(common.Signature()); c != nil {
+		var alts []string
+		for _, id := range ids {
+			alts = append(alts, eq(fv.C[0], id))
 		}
+		x.oblige(fr, "pre", "dynamic-call-target", x.contractTags(fr), or(alts...), pc,
+			"function value is not one of the functions covered by contract "+label, "")
+		sig := types.NewSignatureType(nil, nil, nil, common.Signature().Params(), common.Signature().Results(), common.Signature().Variadic())
+		fr.vals[i] = x.applyContract(fr, c, label, sig, args, false)
+		return
 	}
 	x.unsupportedf(fr, pc, "call through function value %s of type %s without a contract", common.Value.Name(), common.Value.Type())
 	fr.vals[i] = x.freshVal(i.Name(), i.Type())
@@ -307,6 +311,9 @@ func isErrorType(t types.Type) bool {
 
 func paramVars(sig *types.Signature, params []string, args []Val) map[string]Val {
 	out := map[string]Val{}
+	if sig.Recv() != nil && len(args) > 0 {
+		out["self"] = args[0]
+	}
 	for k, n := range params {
 		if n != "" && n != "_" && k < len(args) {
 			out[n] = args[k]
@@ -482,6 +489,12 @@ func (x *Exec) invoke(fr *Frame, i *ssa.Call) {
 	}
 	x.oblige(fr, "nopanic", "nil-invoke", x.contractTags(fr), not(eq(recv.tag(), "0")), pc, "method call on nil interface "+common.Value.Name(), "")
 	it := common.Value.Type()
+	if isOperatorIface(it) && devirtMethods[common.Method.Name()] {
+		if v, ok := x.devirtCall(fr, recv, common.Method.Name(), args, false); ok {
+			fr.vals[i] = v
+			return
+		}
+	}
 	key := ifaceMethodKey(it, common.Method.Name())
 	if h, ok := intrinsics[key]; ok {
 		x.trustedUsed[key] = true
@@ -706,4 +719,40 @@ func (x *Exec) copyOp(fr *Frame, dst, src Val, hint string) Val {
 func (x *Exec) rangeCopyAxiom(newS, oldS, dst, dLo, n, src, sLo string) {
 	x.emit(sx("assert", fmt.Sprintf("(forall ((i Int)) (! (= (select (select %s %s) i) (ite (and (<= %s i) (< i %s)) (select (select %s %s) (+ (- i %s) %s)) (select (select %s %s) i))) :pattern ((select (select %s %s) i))))",
 		newS, dst, dLo, add(dLo, n), oldS, src, dLo, sLo, oldS, dst, newS, dst)))
+}
+
+// dynamicTargets: module functions with exactly this signature that are under one common contract.
+func (x *Exec) dynamicTargets(sig *types.Signature) (*Contract, []string, string) {
+	var c *Contract
+	var ids []string
+	label := ""
+	var fns []*ssa.Function
+	for fn := range allFunctions(x.prog) {
+		if fn.Blocks == nil || fn.Signature.Recv() != nil || fn.Parent() != nil || !x.inModule(fn) || fn.Synthetic != "" {
+			continue
+		}
+		if !types.Identical(fn.Signature, sig) {
+			continue
+		}
+		fns = append(fns, fn)
+	}
+	sortFuncs(fns)
+	for _, fn := range fns {
+		fc := x.contractFor(fn)
+		if fc == nil {
+			return nil, nil, ""
+		}
+		if c == nil {
+			c = fc
+			label = funcKey(fn)
+			if fc.Family != "" {
+				label = fc.Family
+			}
+		} else if c != fc {
+			return nil, nil, ""
+		}
+		ids = append(ids, x.funcID(fn))
+		x.noteContractUse(fn, fc)
+	}
+	return c, ids, label
 }
